@@ -17,11 +17,12 @@ import (
 	authtypes "github.com/cosmos/cosmos-sdk/x/auth/types"
 	consensusparamkeeper "github.com/cosmos/cosmos-sdk/x/consensus/keeper"
 	consensusparamtypes "github.com/cosmos/cosmos-sdk/x/consensus/types"
-	aoltypes "github.com/medibloc/panacea-core/v2/x/aol/types"
 	govtypes "github.com/cosmos/cosmos-sdk/x/gov/types"
 	govv1 "github.com/cosmos/cosmos-sdk/x/gov/types/v1"
 	paramproposal "github.com/cosmos/cosmos-sdk/x/params/types/proposal"
 	upgradetypes "github.com/cosmos/cosmos-sdk/x/upgrade/types"
+	aoltypes "github.com/medibloc/panacea-core/v2/x/aol/types"
+	didtypes "github.com/medibloc/panacea-core/v2/x/did/types"
 )
 
 func monC10RestartAfterHandler(s *Stream, plan string) {
@@ -206,6 +207,88 @@ func monC10RestartAfterParamChange(s *Stream) {
 			}
 			if !bytes.Equal(ha, hb) {
 				return "fail #apphash-differs-from-uninterrupted-twin"
+			}
+		}
+		return "pass"
+	}))
+}
+
+// mon.c10.rolled-back-handler-effects: "transactions … that had not been committed have no effect" holds inside a running
+// process too — a transaction whose first message a handler accepted and whose second message failed is rolled back by
+// the transaction layer, and nothing the handler did may survive in the process.  Two nodes execute such a transaction
+// for every kind of DID operation; one is restarted; the very operation that was rolled back is then sent alone.  Both
+// nodes must answer alike (results, hashes).
+func monC10RolledBackHandlerEffects(s *Stream) {
+	name := "mon.c10.rolled-back-handler-effects"
+	s.Inflight(name)
+	s.Emit(name, guard(func() string {
+		accts := rtAccts()
+		a, err := NewChain(dbm.NewMemDB(), tmpHome(), accts, 100000, nil)
+		if err != nil {
+			return "fail #genesis " + err.Error()
+		}
+		b, _ := NewChain(dbm.NewMemDB(), tmpHome(), accts, 100000, nil) // never stopped
+		A := accts[0]
+		k := newDidKey("c10-rollback")
+		did := didtypes.NewDID(k.pub)
+		vmID := did + "#key1"
+		vm := &didtypes.VerificationMethod{Id: vmID, Type: didtypes.ES256K_2019, Controller: did, PublicKeyBase58: k.b58}
+		docWith := func(svc string) *didtypes.DIDDocument {
+			d := didtypes.NewDIDDocument(did, didtypes.WithVerificationMethods([]*didtypes.VerificationMethod{vm}),
+				didtypes.WithAuthentications([]didtypes.VerificationRelationship{rel(vmID)}))
+			if svc != "" {
+				d.Services = []*didtypes.Service{{Id: "s1", Type: "T", ServiceEndpoint: svc}}
+			}
+			return &d
+		}
+		sign := func(d *didtypes.DIDDocument, seq uint64) []byte {
+			sg, err := didtypes.Sign(d, seq, k.priv)
+			if err != nil {
+				panic(err)
+			}
+			return sg
+		}
+		failing := &aoltypes.MsgAddRecordRequest{TopicName: "no-such-topic", Key: []byte("k"), Value: []byte("v"), WriterAddress: A.Bech(), OwnerAddress: A.Bech()}
+		d0, d1 := docWith(""), docWith("https://a")
+		create := &didtypes.MsgCreateDIDRequest{Did: did, Document: d0, VerificationMethodId: vmID, Signature: sign(d0, 0), FromAddress: A.Bech()}
+		update := &didtypes.MsgUpdateDIDRequest{Did: did, Document: d1, VerificationMethodId: vmID, Signature: sign(d1, 0), FromAddress: A.Bech()}
+		deact := &didtypes.MsgDeactivateDIDRequest{Did: did, VerificationMethodId: vmID, Signature: sign(&didtypes.DIDDocument{Id: did}, 0), FromAddress: A.Bech()}
+		deact1 := &didtypes.MsgDeactivateDIDRequest{Did: did, VerificationMethodId: vmID, Signature: sign(&didtypes.DIDDocument{Id: did}, 1), FromAddress: A.Bech()}
+		t := a.Time
+		step := func(label string, restart bool, msgs ...sdk.Msg) string {
+			t = t.Add(5 * time.Second)
+			if restart {
+				a = reopen(a)
+			}
+			tx, err := b.BuildTx(TxSpec{Msgs: msgs, Signers: []SignerSpec{{Acct: A}}, Fee: 1})
+			if err != nil {
+				return "fail #setup build: " + err.Error()
+			}
+			ra, ha := runBlock(a, t, [][]byte{tx})
+			rb, hb := runBlock(b, t, [][]byte{tx})
+			if strings.Join(ra, "\n") != strings.Join(rb, "\n") {
+				return "fail #results-differ-from-uninterrupted-twin at " + label
+			}
+			if !bytes.Equal(ha, hb) {
+				return "fail #apphash-differs-from-uninterrupted-twin at " + label
+			}
+			return ""
+		}
+		for _, st := range []struct {
+			label   string
+			restart bool
+			msgs    []sdk.Msg
+		}{
+			{"rolled-back create", false, []sdk.Msg{create, failing}},
+			{"create after restart", true, []sdk.Msg{create}},
+			{"rolled-back deactivation", false, []sdk.Msg{deact, failing}},
+			{"update after restart", true, []sdk.Msg{update}},
+			{"rolled-back deactivation at sequence 1", false, []sdk.Msg{deact1, failing}},
+			{"deactivation after restart", true, []sdk.Msg{deact1}},
+			{"create on the tombstone", false, []sdk.Msg{create}},
+		} {
+			if r := step(st.label, st.restart, st.msgs...); r != "" {
+				return r
 			}
 		}
 		return "pass"
